@@ -72,6 +72,8 @@ def run(prog):
             def val(x):
                 if mir.is_call(x, "len") and is_clause(x[2][0]):
                     return n
+                if x[0] == "un" and x[1] == "PtrMetadata" and is_clause(x[2]):
+                    return n          # slice patterns (`match c.as_slice() { [] => .., [u] => .., [a, b, ..] => .. }`)
                 if x[0] == "const":
                     return int(x[2])
                 return None
@@ -120,6 +122,9 @@ def run(prog):
             if t["k"] == "switch":
                 c = te.switch_term[b][0]
                 v = cond_value(c, n)
+                if v is None and any((mir.is_call(x, "len") or mir.is_call(x, "is_empty") or (x[0] == "un" and x[1] == "PtrMetadata"))
+                                     for x in mir.subterms(c)) and "next" in show(c):
+                    raise Und("a test on the clause's length is not evaluated: %s" % show(c)[:60])
                 if v is not None:
                     tg = [x for val, x in t["targets"] if int(val) == v]
                     nxts = [tg[0]] if tg else [t["otherwise"]]
